@@ -9,7 +9,7 @@ import subprocess
 import sys
 
 V = os.path.dirname(os.path.dirname(os.path.abspath(__file__)))
-S = "/tmp/seedrun"
+S = os.environ.get("SEEDRUN", "/tmp/seedrun")
 
 
 def sh(cmd, **kw):
